@@ -374,6 +374,25 @@ def normalizeWith (H : Str → Str) (tooDeep : Nat → Nat → Bool) (permLimit 
   let r ← relabelWith H tooDeep permLimit quads
   .ok (serialize (sortQuads r.1))
 
+/-! ### "within the limits", statically
+
+`relatedBound b2q b`: how many times `hash_n_degree_quads(b, …)` pushes a related blank node (one per
+occurrence of another blank node in a quad filed under `b`, quads filed once per occurrence of `b`):
+no related-blank-node list of `b` can be longer.  `withinLimits`: no such bound exceeds the
+permutation limit, and the depth guard does not trip at any depth up to the number of blank nodes
+(the recursion is never deeper: every level issues a new identifier).  `SophiaProofs.C06.
+never_fails_within_limits`: then `relabel_with` cannot fail with `ToxicGraph`. -/
+
+def relatedCount (ident : Str) (q : Quad) : Nat :=
+  ((components q).filter (fun c => match c.1 with | .bnode b => b != ident | _ => false)).length
+
+def relatedBound (b2q : SMap (List Quad)) (ident : Str) : Nat :=
+  (((b2q.get ident).getD []).map (relatedCount ident)).sum
+
+def withinLimits (tooDeep : Nat → Nat → Bool) (permLimit : Nat) (b2q : SMap (List Quad)) : Bool :=
+  b2q.all (fun e => relatedBound b2q e.1 ≤ permLimit) &&
+    (List.range (b2q.length + 1)).all (fun d => !tooDeep d b2q.length)
+
 /-- sizes of the step-5 groups (driver: is the unstable sort of step 5.3 pinned down?) -/
 def groupSizes (H : Str → Str) (quads : List Quad) : List Nat :=
   match step2 quads with
